@@ -31,6 +31,8 @@ func (c *ctx) whoCalls(rule string, target *ssa.Function, allowed allow) []callS
 		construct := fmt.Sprintf("%s/callers-of/%s/%s", rule, fnName(target), fnName(enc))
 		if reason, ok := allowed[enc]; ok {
 			c.r.OK(construct, c.p.Pos(s.Site.Pos()), "permitted caller: "+reason)
+		} else if via := c.p.newHelperOfAllowed(enc, allowed, 0); via != "" {
+			c.r.OK(construct, c.p.Pos(s.Site.Pos()), "a helper that did not exist on the reference tree and is called only from permitted callers ("+via+")")
 		} else {
 			c.r.Bad(construct, c.p.Pos(s.Site.Pos()), fmt.Sprintf("%s is called from %s, which is not one of the permitted callers {%s}; shortest chain from a root: %s",
 				fnName(target), fnName(s.Caller), allowedNames(allowed), c.p.chainToRoot(s.Caller)))
@@ -127,6 +129,8 @@ func (c *ctx) whoWrites(rule string, fv *types.Var, name string, allowed allow, 
 		}
 		if reason, ok := allowed[enc]; ok {
 			c.r.OK(construct, c.p.Pos(pos), "permitted writer: "+reason)
+		} else if via := c.p.newHelperOfAllowed(enc, allowed, 0); via != "" {
+			c.r.OK(construct, c.p.Pos(pos), "a helper that did not exist on the reference tree and is called only from permitted writers ("+via+")")
 		} else {
 			c.r.Bad(construct, c.p.Pos(pos), fmt.Sprintf("field %s is written in %s, not one of the permitted writers {%s}", name, fnName(w.Fn), allowedNames(allowed)))
 		}
